@@ -489,16 +489,66 @@ func checkCloneKeepsNil(c *Ctx, r *Rec, rule string, fds []*ast.FuncDecl) {
 					}
 					break
 				}
+				if id, isId := e.(*ast.Ident); isId {
+					// `var x []V` that is only ever extended with append inside loops or branches: nil
+					// when nothing is appended
+					if v, isVar := info.Uses[id].(*types.Var); isVar {
+						if _, isSlice := v.Type().Underlying().(*types.Slice); isSlice && declaredWithoutValue(info, fd, v) {
+							onlyAppends, unconditional := true, false
+							ast.Inspect(fd.Body, func(y ast.Node) bool {
+								as, ok := y.(*ast.AssignStmt)
+								if !ok {
+									return true
+								}
+								for li, l := range as.Lhs {
+									if identObj(info, l) != types.Object(v) {
+										continue
+									}
+									ap, isCall := ast.Unparen(as.Rhs[min(li, len(as.Rhs)-1)]).(*ast.CallExpr)
+									if !isCall || !isBuiltinCall(info, ap, "append") || len(ap.Args) == 0 || identObj(info, ap.Args[0]) != types.Object(v) {
+										onlyAppends = false
+										continue
+									}
+									// conditional: inside a loop, an if or a switch
+									cond := false
+									chain := pathTo(fd.Body, as)
+									for _, anc := range chain {
+										switch anc.(type) {
+										case *ast.ForStmt, *ast.RangeStmt, *ast.IfStmt, *ast.SwitchStmt, *ast.TypeSwitchStmt:
+											cond = true
+										}
+									}
+									if !cond {
+										unconditional = true
+									}
+								}
+								return true
+							})
+							if onlyAppends && !unconditional {
+								sites++
+								bad++
+								r.fail(rule, c.fdName(fd)+"/"+id.Name, c.pos(id.Pos()), fmt.Sprintf("the result is made from %s, a Go array that is declared without a value and only ever extended with append inside loops or branches: when nothing is appended it is nil, not empty - the collection built around it is \"undefined\" to the collator and compares unequal to every other empty collection of its kind", id.Name))
+								continue
+							}
+						}
+					}
+					if init := initOf(info, fd, id); init != nil {
+						e = ast.Unparen(init)
+					}
+				}
 				call, ok := e.(*ast.CallExpr)
 				if !ok || len(call.Args) != 1 {
 					continue
 				}
 				fn := calleeOf(info, call)
-				if fn == nil || fn.Pkg() == nil || fn.Pkg().Path() != "slices" || fn.Name() != "Clone" {
+				if fn == nil || fn.Pkg() == nil || (fn.Pkg().Path() != "slices" && fn.Pkg().Path() != "maps") || fn.Name() != "Clone" {
 					continue
 				}
 				sites++
-				if o := identObj(info, call.Args[0]); o != nil && params[o] {
+				if o := identObj(info, call.Args[0]); o != nil && params[o] && fn.Pkg().Path() == "maps" {
+					bad++
+					r.fail(rule, c.fdName(fd)+"/"+exprStr(call), c.pos(call.Pos()), fmt.Sprintf("the result is %s of the argument %s: for a nil argument that is a nil Go map - it reads as empty, and the first value that is set in it is an assignment to an entry of a nil map (a run-time panic)", exprStr(call), o.Name()))
+				} else if o != nil && params[o] {
 					bad++
 					r.fail(rule, c.fdName(fd)+"/"+exprStr(call), c.pos(call.Pos()), fmt.Sprintf("the result is %s of the argument %s: for a nil argument that is a nil slice, not an empty one - the collection built around it is \"undefined\" to the collator and ranks before, and compares unequal to, every other empty collection of its kind", exprStr(call), o.Name()))
 				}
@@ -509,4 +559,20 @@ func checkCloneKeepsNil(c *Ctx, r *Rec, rule string, fds []*ast.FuncDecl) {
 	if bad == 0 {
 		r.ok(rule, "nil-keeping-clones", "", fmt.Sprintf("%d results made with slices.Clone, none of an argument that may be nil", sites))
 	}
+}
+
+// declaredWithoutValue: `var x T` (no initial value) in the function.
+func declaredWithoutValue(info *types.Info, fd *ast.FuncDecl, v *types.Var) bool {
+	found := false
+	ast.Inspect(fd.Body, func(x ast.Node) bool {
+		if vs, ok := x.(*ast.ValueSpec); ok && len(vs.Values) == 0 {
+			for _, nm := range vs.Names {
+				if info.Defs[nm] == types.Object(v) {
+					found = true
+				}
+			}
+		}
+		return true
+	})
+	return found
 }
